@@ -753,6 +753,7 @@ pub fn drive<C: Check>(o: DriveOpts) -> i32 {
                 "reach_probes": agg.probes,
                 "reach_missing": reach_missing,
                 "distinct_schedules": nsched.len(),
+                "distinct_schedules_measure": "distinct hashes of the sequence of (task id, seam operation, outcome) over every thread spawn, sleep, channel send/try_send/recv/try_recv and empty socket read of a run; executions in which only one task touched the seam are not counted",
                 "components_real": C::real_components(),
                 "components_stub": C::stub_components(),
                 "known_findings_hit": known_hits,
